@@ -54,8 +54,15 @@ def main():
         # a broken correspondence without a failing input in hand is reported as such, naming
         # the stream (here: the harness line that made the call) in the replay file.
         import json
-        from common import VERIF
+        from common import VERIF, Report
         prop = args.prop.upper()
+        rep = Report.current
+        if rep is not None and rep.failures:
+            # failing inputs were already found before the crash: report them (verdict rules of
+            # section 4: a failing input in hand takes precedence), the crash is recorded beside them
+            rep.count("stream_crashed_in_library:" + where)
+            rep.extra["stream_crash"] = dict(where=where, exception=repr(exc)[:500])
+            sys.exit(rep.finish())
         path = os.path.join(VERIF, "replays", "%s_%s_%d.json" % (prop, tier, seed))
         os.makedirs(os.path.dirname(path), exist_ok=True)
         with open(path, "w") as f:
